@@ -1,6 +1,7 @@
 SPECIFICATION Spec
 VIEW view
 CONSTANT Deviations = {}
+CONSTANT Cap = 10000
 CONSTANT MaxOps = 3
 INVARIANT Repr
 INVARIANT Laws
